@@ -19,7 +19,7 @@ import (
 	. "vh/vhlib"
 )
 
-const frameHeader = "From MV Require Import Lib.HBits Lib.HCaseIO Model.Hpack Model.H2Frame Model.H2FrameCases.\nFrom Coq Require Import List NArith Bool Uint63.\nImport ListNotations.\nOpen Scope N_scope.\n"
+const frameHeader = "From MV Require Import Lib.HBits Lib.HCaseIO Model.Hpack Model.H2Frame Model.H2FrameCases.\nFrom Coq Require Import List NArith Bool Uint63.\nImport ListNotations.\nOpen Scope N_scope.\n" + ubDefs
 
 // fakeConn: an api.Connection that records what is written to it.
 type fakeConn struct {
@@ -617,7 +617,7 @@ func corruptFrames(r *Rng, data []byte) []byte {
 	case 3:
 		c[o+5+r.Intn(4)] = []byte{0, 0x80, 0xff, 1}[r.Intn(4)] // stream id
 	case 4:
-		if l > 0 {
+		if l > 0 && o+9+l <= len(c) {
 			c[o+9+r.Intn(l)] = byte(r.Intn(256))
 		} else {
 			c[o+4] |= 0x8
@@ -626,7 +626,7 @@ func corruptFrames(r *Rng, data []byte) []byte {
 		c = c[:r.Intn(len(c))]
 	case 6: // pad length byte larger than the payload
 		c[o+4] |= 0x8
-		if l > 0 {
+		if l > 0 && o+9 < len(c) {
 			c[o+9] = byte(l + r.Intn(3))
 		}
 	case 7: // zero the stream id
